@@ -50,6 +50,10 @@ CLAIMED.update({
     "C25": ("mask/shift algebra on const-evaluated items + writer/reader value-origin agreement, with the arithmetic lemma stated in DESIGN.md", "IndexSet order preservation is trusted; persistence round trip is C26"),
 })
 
+CLAIMED.update({
+    "C26": ("writer/reader ordering and filtering obligations on the `persistence` configuration's MIR (exclusive access, structs-before-functions sort, final-memos-only filter, runtime restored last, no edge elision)", "equality of results after a round trip, absence of re-execution and the serde-derived field schemas are not decided"),
+})
+
 PENDING = "check not built yet in this round (see DESIGN.md section 5 for the planned static obligations)"
 NOT_APPLICABLE = {"C26": "persistence is a non-default cargo feature; its writer/reader schema-agreement obligations are planned for the thorough tier (DESIGN.md C26) and are not built yet; value equality after a serde round trip and absence of re-execution quantify over runtime values and are out of reach of a static argument"}
 
